@@ -24,7 +24,7 @@ RULE = ('cases: seeded histories of <=60 ops (join, leave, re-join, attach, deta
         'type, a re-join, and an empty-listing answer; distinct by (class, op trace) signature.')
 ASSUMPTIONS = ['component classes use identity equality; each component instance belongs to one agent',
                'PositionComponent managed by spatial worlds is outside the claim', 'F1/F2/F3/F6 are known findings (not repaired)']
-FLOORS = {'quick': {'rejected_reg_listed': 224, 'rejected_dereg_offline': 311, 'rejected_dereg_new': 604, 'rejected_explicit_calls': 1273, 'listing_comparisons': 20000, 'classA_histories': 381, 'joins': 3000, 'leaves': 1500, 'rejoins': 500,
+FLOORS = {'quick': {'timesteps_cut_short_after_in_step_population_changes': 15, 'rejected_reg_listed': 224, 'rejected_dereg_offline': 311, 'rejected_dereg_new': 604, 'rejected_explicit_calls': 1273, 'listing_comparisons': 20000, 'classA_histories': 381, 'joins': 3000, 'leaves': 1500, 'rejoins': 500,
                     'empty_answers': 3000, 'leave_shared_type': 500, 'strict_keyerror': 1000, 'migrations': 300, 'big_populations': 8, 'in_step_leaves_observed': 30, 'explicit_reregistration_rejected': 6, 'refused_offmap_joins': 200, 'models_completed_mid_history': 150, 'populated_world_installed_later': 80,
                     'reach:Core.SystemManager.register_component': 2000, 'reach:Core.SystemManager.deregister_component': 1000},
           'thorough': {'listing_comparisons': 1000000, 'classA_histories': 29000}}
@@ -467,14 +467,41 @@ def case_big(ctx, case):
         def execute(self):
             must_match('read by a lower-priority system in the same timestep')
 
+    from vlib import faults
+    fail_plan = [rng.random() < 0.5 for _ in range(8)]
+
+    class Faulty(core.System):
+        """Runs after the reaper and raises now and then (ordinary exception or KeyboardInterrupt-like): the caller catches it and goes on."""
+
+        def execute(self):
+            if fail_plan and fail_plan.pop(0):
+                ctx.count('timesteps_cut_short_after_in_step_population_changes')
+                raise faults.make(faults.pick(rng), 'a system fails after agents left / joined in this timestep')
+
+    class Returner(core.System):
+        """Lets some of the agents that left come back, also from inside a timestep."""
+
+        def execute(self):
+            gone = [a for a in agents if not a.resident]
+            for a in rng.sample(gone, min(len(gone), rng.randint(0, 2))):
+                join(a)
+                trace.append(f'in-step join {a.real.id}')
+
     rounds = [rng.sample([a for a in agents], k) for k in (3, 1, 5)]
     flat = set()
     rounds = [[a for a in r if id(a) not in flat and not flat.add(id(a))] for r in rounds]
     mm.real.systems.add_system(Reaper(mm.real, rounds))
     mm.real.systems.add_system(Reader('reader', mm.real, priority=-3))
-    for _ in range(4):
-        mm.real.execute()
+    mm.real.systems.add_system(Returner('returner', mm.real, priority=3))
+    mm.real.systems.add_system(Faulty('faulty', mm.real, priority=1))
+    for _ in range(7):
+        _, err = faults.attempt(mm.real.execute)
+        if err is not None and not isinstance(err, (faults.Interrupt, Exception)):
+            raise err
+        if isinstance(err, CaseViolation):
+            raise err
         ctx.count('in_step_leaves_observed')
+        must_match('after a timestep (complete, or cut short by a failing system)')
     must_match('after the timesteps')
     # churn: leave from the middle, re-join, in bulk
     for _ in range(n // 2):
